@@ -203,6 +203,11 @@ func (p *PacketConn) WriteTo(b []byte, addr net.Addr) (int, error) {
 	}
 	data := append([]byte(nil), b...)
 	from := p.addr
+	n.mu.Lock()
+	if ip, port := n.natOutLocked("udp", p.addr.IP, p.addr.Port); !ip.Equal(p.addr.IP) || port != p.addr.Port {
+		from = &net.UDPAddr{IP: ip, Port: port}
+	}
+	n.mu.Unlock()
 	if mangle != nil {
 		// the adversary on the wire: sees a copy of the datagram and returns what travels instead (nil = nothing)
 		if data = mangle(p.addr, to, data); data == nil {
@@ -224,6 +229,11 @@ func (p *PacketConn) WriteTo(b []byte, addr net.Addr) (int, error) {
 			simrt.Yield("udp.deliver")
 			n.mu.Lock()
 			dst := n.udp[k]
+			if dst == nil {
+				if pk := n.natInLocked("udp", k); pk != "" {
+					dst = n.udp[pk]
+				}
+			}
 			n.mu.Unlock()
 			if dst == nil {
 				n.udpNote("udp-no-socket")
